@@ -1060,7 +1060,11 @@ def run_c08(chk):
              # ... also the one node-type test that takes an argument (round-8 seed C08-L read it as a function call)
              ("processing-instruction('pi')", "N"), ("count(processing-instruction('pi'))", "n"), ("*[processing-instruction('pi')]", "N"),
              ("processing-instruction('pi') | a", "N"), ("(processing-instruction(\"tg\"))[1]", "N"), ("//a[processing-instruction( 'pi' )]", "N"),
-             ("processing-instruction('pi')/..", "N"), ("child::processing-instruction('pi')", "N")]
+             ("processing-instruction('pi')/..", "N"), ("child::processing-instruction('pi')", "N"),
+             # ... and a number that is no integer is true for NO position: [1.5] is short for [position() = 1.5] (kept by hand: the
+             # detection of seed C08-D, which truncated, had depended on a random predicate)
+             ("//*[1.5]", "N"), ("(//*)[2.5]", "N"), ("//*[last() div 2]", "N"), ("(//*)[count(//*) div 2]", "N"), ("//*[0.5 + 1]", "N"),
+             ("//node()[last() - 0.5]", "N"), ("//*[position() = 1.5]", "N"), ("(//node())[3 div 2]", "N"), ("//*[1.0]", "N"), ("//*[2 div 2]", "N")]
     casts = construct_asts()
     for cd in CONSTRUCT_DOCS:
         for i in range(0, len(casts), 8):
